@@ -118,7 +118,7 @@ PROPS["C03"] = {
     "shards": 16,
     "quick_budget_s": 60,
     "thorough_budget_s": 900,
-    "floors": {"any": {"encode:ok": 300, "compositions-with-shared-implicit-import": 100, "compositions-with-versioned-group": 10,
+    "floors": {"any": {"pure-implicit-groups-checked": 200, "encode:ok": 300, "compositions-with-shared-implicit-import": 100, "compositions-with-versioned-group": 10,
                        "shared-import-union-checked": 300, "encode:implicit-import-conflict": 5}},
     "rule": _COMPOSE_RULE + "Libraries always carry versions (same track, other track, unversioned second package); 0-80% of arguments "
             "wired so that many stay implicit. Expected import names = explicit names + one canonical (highest) name per semver "
